@@ -286,6 +286,7 @@ func (l *Listener) Accept() (net.Conn, error) {
 		sConn, err := l.mux.rewriteHost(conn, l.rewriteHost)
 		if err != nil {
 			xl.Warnf("host header rewrite failed: %v", err)
+			_ = conn.Close()
 			return nil, fmt.Errorf("host header rewrite failed")
 		}
 		xl.Debugf("rewrite host to [%s] success", l.rewriteHost)
